@@ -134,6 +134,7 @@ impl Literal {
         let top_level_defs = TopLevelTypes {
             struct_names,
             enum_names,
+            const_defs: &checked.const_defs,
         };
         let mut env = Env::new();
         let mut fns = TypedFns::new();
